@@ -340,11 +340,13 @@ def r1_symbolic(repo, res):
         if got is None:
             res.note(f"C08.R1: offset of the {kind} branch is not in the syntactic language; folded table only")
             continue
-        res.ob("C08.R1", pm, pm, got in exp,
-               expected={"substitution": "position += len(left allele) - 1", "insertion": "position += 1",
-                         "deletion-insertion": "position += len(deleted part) - 1", "deletion": "position += len(deleted) - 1 (= len(op) - 4)"}[kind],
-               found=" + ".join(f"{v}*{k[0]}({k[1]})" if k != 1 else str(v) for k, v in sorted(got.items(), key=str)) or "0",
-               clause="the strand arithmetic has a separate off-by-length rule per variant kind", key=f"symbolic-offset:{kind}")
+        shown = " + ".join(f"{v}*{k[0]}({k[1]})" if k != 1 else str(v) for k, v in sorted(got.items(), key=str)) or "0"
+        res.count(f"C08.R1:syntactic offset ({kind}) = {shown}", 1)
+        if got not in exp:
+            # advisory only: the folded haplotype table (above) is the deciding rule; a different spelling of the same offset
+            # (e.g. through a local alias) must not raise an alarm
+            res.note(f"C08.R1: syntactic offset of the {kind} branch reads `{shown}` (reference spelling "
+                     f"`{' + '.join(str(v) + '*' + str(k) for k, v in exp[0].items())}`); decided by the folded haplotype table")
 
 
 def r4(repo, res, stored):
